@@ -31,9 +31,9 @@ func init() {
 // ---- rows -------------------------------------------------------------------------------------------------
 
 const (
-	outsViaDirect = iota // arrived directly, source outside my overlay networks
-	outsViaVpn           // arrived directly, source address inside my overlay networks
-	outsViaRelayed       // payload of a verified packet on a terminal relay record (ViaSender.IsRelayed)
+	outsViaDirect  = iota // arrived directly, source outside my overlay networks
+	outsViaVpn            // arrived directly, source address inside my overlay networks
+	outsViaRelayed        // payload of a verified packet on a terminal relay record (ViaSender.IsRelayed)
 )
 const (
 	outsRelNA = iota
@@ -69,12 +69,12 @@ const (
 var outsENames = []string{"deliver", "close", "roam", "live", "win", "lh", "ctl", "fwd", "recverr", "hs", "reply", "unwrap", "other"}
 
 type outsRow struct {
-	ty, st                  int
-	ver                     bool
-	via                     int
-	cfgS, cfgA              bool
-	idx, full, auth, fresh  bool
-	rel, rm                 int
+	ty, st                 int
+	ver                    bool
+	via                    int
+	cfgS, cfgA             bool
+	idx, full, auth, fresh bool
+	rel, rm                int
 }
 
 func outsFeasible(r outsRow) bool {
